@@ -89,6 +89,13 @@ def rand_history(rng, maxlen):
         elif op == "flatten":
             hist.append((op, h, rng.choice([2, 8, 50])))
             npaths += 1
+        elif op == "append" and rng.random() < 0.3:
+            # the argument starts (or ends) exactly where the receiver ends: built at run time from the receiver's current end point
+            sp = rand_start(rng)
+            sp["closed"] = False
+            hist.append(("newat", h, sp, rng.randrange(2)))
+            hist.append((op, h, npaths))
+            npaths += 1
         elif op == "append":
             o = rng.randrange(npaths + 1)
             if o == npaths:
@@ -159,6 +166,17 @@ class Run:
             self.cmds.append("new %d %s" % (step[1]["closed"], tok_vals(step[1]["segs"])))
             self.dumps.append(self.dump())
             return
+        if op == "newat":
+            # a new open path translated so that its start (mode 0) or its end (mode 1) is exactly the current end of path step[1]
+            q = self.paths[step[1]]
+            segs = [[tuple(pt) for pt in sg] for sg in step[2]["segs"]]
+            live = isinstance(q.activeRepresentation.segments, list) and len(q.asSegments()) > 0
+            if live:
+                e = vals_of(q)[-1][-1]
+                anchor = segs[0][0] if step[3] == 0 else segs[-1][-1]
+                dx, dy = e[0] - anchor[0], e[1] - anchor[1]
+                segs = [[(e if pt == anchor else (pt[0] + dx, pt[1] + dy)) for pt in sg] for sg in segs]
+            return self.apply(("new", {"segs": segs, "closed": False}))
         h = step[1]
         p = self.paths[h]
         if not isinstance(p.activeRepresentation.segments, list) or len(p.asSegments()) == 0:
